@@ -604,6 +604,7 @@ def list_len(I, box):
     its = I.items_of(box)
     if its is not None:
         return len(its)
+    box.term.len_observed = True
     n = z3.simplify(box.term.length())
     if z3.is_int_value(n):
         return n.as_long()
